@@ -24,7 +24,12 @@ RULE = ("Two feature files on disk (features/f0.feature, features/f1.feature in 
         "@setup / @teardown on a plain scenario (first, middle, last), on an outline, on one Examples block, on a scenario "
         "inside a rule - with each untagged slot unsuccessful in turn, fed back as '@rerun.txt' and as file:line "
         "command-line arguments; there the second run must execute the listed scenarios plus, as "
-        "FeatureScenarioLocationCollector.build_feature documents, the @setup/@teardown ones, everything else skipped. Run 1 = real Configuration "
+        "FeatureScenarioLocationCollector.build_feature documents, the @setup/@teardown ones, everything else skipped; plus 3 "
+        "pairs of features carrying @t on exactly one element (an Examples block - the rows are then selected only through "
+        "it -, an outline, a scenario, a rule, the feature, an Examples block inside a rule) run under {no tags, --tags=t} x "
+        "{show_skipped, --no-skipped} in both runs with <= 1 non-pass slot of every kind and pairs of failing slots, so that "
+        "unsuccessful scenarios fall among the selected and the de-selected ones (ground truth: final scenario statuses of "
+        "the model, cross-checked with the kinds; never formatter events). Run 1 = real Configuration "
         "(-f rerun -o rerun.txt features), collect_feature_locations + parse_features on the files, formatters from "
         "make_formatters, ModelRunner with a fresh StepRegistry. Oracle: rerun.txt lists exactly file:line (line known "
         "from the renderer) of the scenarios whose final status is failed or error-class, in run order; none -> no file "
@@ -184,6 +189,52 @@ def special_of(prog):
     return exempt, what
 
 
+# switch-combination dimension: run 1 (and 2) under {no tags, --tags=t} x {show_skipped on, --no-skipped}; @t sits on
+# exactly one element of each feature, so that with --tags=t only what that element covers is selected
+_T = ("t",)
+TAG_SHAPES = {
+    "examples": _F((_S(), P.O2([(_T, ROWS2), ((), ROWS1)]))),          # rows selected ONLY through an Examples-block tag
+    "outline": _F((_S(), _O(ROWS2, tags=_T))),
+    "scenario": _F((_S(tags=_T), _S(), _O(ROWS1))),
+    "rule": _F((_S(), _R((_S(), _O(ROWS1)), tags=_T))),
+    "feature": _F((_S(), _O(ROWS1)), tags=_T),
+    "examples@rule": _F((_S(), _R((P.O2([(_T, ROWS1), ((), ROWS1)]),)))),
+}
+TAG_PAIRS = (("examples", "scenario"), ("outline", "rule"), ("feature", "examples@rule"))
+SWITCHES = ((), ("--tags=t",), ("--no-skipped",), ("--tags=t", "--no-skipped"))
+
+
+def tag_level(feature):
+    """where @t sits in a TAG_SHAPES feature (None when it has no @t)"""
+    for name, shp in TAG_SHAPES.items():
+        if _strip(shp) == _strip(feature) and _where_t(shp) == _where_t(feature):
+            return name
+    return None
+
+
+def _strip(node):
+    """shape skeleton: kinds and outcomes removed"""
+    if node[0] == "S":
+        return ("S",)
+    if node[0] == "O":
+        return ("O", tuple(len(rows) for _t, rows in node[3]))
+    return (node[0], tuple(_strip(x) for x in node[3]))
+
+
+def _where_t(node, path=()):
+    out = []
+    if "t" in node[1]:
+        out.append(path)
+    if node[0] == "O":
+        for b, (extags, _rows) in enumerate(node[3]):
+            if "t" in extags:
+                out.append(path + ("ex", b))
+    elif node[0] in ("F", "R"):
+        for k, x in enumerate(node[3]):
+            out.extend(_where_t(x, path + (k,)))
+    return out
+
+
 _TITLE = re.compile(r"^(\s*(?:Scenario Outline|Scenario|Rule|Examples):).*$")
 
 
@@ -197,7 +248,7 @@ def fname(fi):
 
 
 # ------------------------------------------------------------------------------------------- one real run
-def one_run(m, args, loc2path, faults, loc2cont=None, cfault=None):
+def one_run(m, args, loc2path, faults, loc2cont=None, cfault=None, feedback=False):
     """Configuration(args) -> collect_feature_locations(config.paths) -> parse_features -> make_formatters ->
     ModelRunner.run(), i.e. what behave.runner.Runner.run_with_paths does, with an own StepRegistry and hooks dict."""
     from behave.runner_util import parse_features, collect_feature_locations
@@ -211,17 +262,16 @@ def one_run(m, args, loc2path, faults, loc2cont=None, cfault=None):
     except Exception as e:                                     # noqa
         obs["feed_exc"] = "%s: %s" % (type(e).__name__, str(e)[:160])
         return obs
-    scen = []
+    def path_of(s):
+        return loc2path.get((s.location.filename, s.line), "?")
+
     for f in feats:
         obs["present"].append(f.filename)
-        for s in f.walk_scenarios():
-            p = loc2path.get((s.location.filename, s.line))
-            if p is None:
-                obs["unknown"].append(str(s.location))
-                continue
-            scen.append((p, s))
-            obs["selected"][p] = not s.should_skip
-    by_id = {id(s): p for p, s in scen}
+        if feedback:
+            # the selection made by parse_features (which has walked - and thereby built - the outline rows itself).
+            # A first run must NOT be walked before it starts: real runs start with outlines whose rows are not built yet
+            for s in f.walk_scenarios():
+                obs["selected"][path_of(s)] = not s.should_skip
     conts = []
     for f in feats:
         for c in [f] + [x for x in f.run_items if isinstance(x, m["Rule"])]:
@@ -235,7 +285,7 @@ def one_run(m, args, loc2path, faults, loc2cont=None, cfault=None):
 
     def make_step(kind):
         def step_impl(ctx, n):
-            obs["calls"].append((by_id.get(id(ctx.scenario), "?"), n))
+            obs["calls"].append((path_of(ctx.scenario), n))
             if kind == "fail":
                 assert False, "boom %d" % n
             if kind == "error":
@@ -248,13 +298,13 @@ def one_run(m, args, loc2path, faults, loc2cont=None, cfault=None):
         reg.add_step_definition("step", "step {n:d} %s" % kind, make_step(kind))
 
     def before_scenario(ctx, scenario):
-        p = by_id.get(id(scenario), "?")
+        p = path_of(scenario)
         obs["before"].append(p)
         if faults.get(p) == "hookb":
             raise harness.HookFault("before_scenario fault")
 
     def after_scenario(ctx, scenario):
-        p = by_id.get(id(scenario), "?")
+        p = path_of(scenario)
         obs["after"].append(p)
         if faults.get(p) == "hooka":
             raise harness.HookFault("after_scenario fault")
@@ -283,8 +333,13 @@ def one_run(m, args, loc2path, faults, loc2cont=None, cfault=None):
         obs["verdict"] = bool(runner.run())
     except BaseException as e:                                 # noqa - nothing may escape
         obs["escaped"] = "%s: %s" % (type(e).__name__, str(e)[:160])
-    for p, s in scen:
-        obs["status"][p] = s.status.name
+    for f in feats:
+        for s in f.walk_scenarios():
+            p = path_of(s)
+            if p == "?":
+                obs["unknown"].append(str(s.location))
+            else:
+                obs["status"][p] = s.status.name
     obs["fstatus"] = {f.filename: f.status.name for f in feats}
     for cp, c in conts:
         obs["cstatus"][cp] = c.status.name
@@ -315,7 +370,7 @@ def klass(status):
     return "failed" if status == "failed" else "error" if status in ERRC else status
 
 
-def check_listing(v, hist, status, order, path2loc, loc2path, text, entries, stale_text, fstatus):
+def check_listing(v, hist, status, order, path2loc, loc2path, text, entries, stale_text, fstatus, tagon=None):
     """the listing clause of the statement for one run; returns the expected entries.
     Trigger class of a missing entry: "error" when the scenario's own final status or the final status of its
     feature is error-class (one class: an error-class status is involved), otherwise "failed"."""
@@ -335,6 +390,8 @@ def check_listing(v, hist, status, order, path2loc, loc2path, text, entries, sta
             desc = {"subcheck": "rerun.listing", "clause": "missing", "status_class": cls}
             if fst == "hook_error":          # only a feature-level hook fault gives a feature this status
                 desc["feature_status"] = fst
+            if tagon and tagon.get(e[0]):    # switch-combination programs: where @t sits in that feature
+                desc["tag_on"] = tagon[e[0]]
             v.append((desc,
                       "%s; %s:%d (status %s, in a feature with status %s) is not listed; %s"
                       % (where, e[0], e[1], status[p], fst,
@@ -368,16 +425,21 @@ def elem_class(path, prog):
 def rerun_case(case):
     """case = (shape0, shape1, kinds, stale[, cfault[, dup[, feed]]])   cfault = None | (container path, hook name);
     dup = 1: all scenario / outline / rule / examples titles identical; feed = 1: the entries of the rerun file are given
-    to run 2 as file:line command-line arguments instead of '@rerun.txt'"""
+    to run 2 as file:line command-line arguments instead of '@rerun.txt'; opts = extra command-line switches of both runs
+    (a subset of --tags=t, --no-skipped; shapes from TAG_SHAPES)"""
     shape0, shape1, kinds, stale = case[:4]
     cfault = case[4] if len(case) > 4 else None
     dup = case[5] if len(case) > 5 else 0
     feed = case[6] if len(case) > 6 else 0
+    opts = tuple(case[7]) if len(case) > 7 else ()
     m = harness._imp()
     harness.reset_globals()
     prog, order = build(shape0, shape1, kinds, cfault)
     kind_of = dict(zip(order, kinds))
     exempt, special = special_of(prog)
+    tagsel = "--tags=t" in opts
+    efftags = {p: info["tags"] for p, _k, info in P.walk_scenarios(prog)}
+    tagon = {fname(fi): tag_level(f) for fi, f in enumerate(prog)} if opts else None
     faults = {p: k for p, k in kind_of.items() if k in ("hookb", "hooka")}
     v = []
     d = tempfile.mkdtemp(prefix="c17_", dir="/dev/shm" if os.path.isdir("/dev/shm") else None)
@@ -414,6 +476,7 @@ def rerun_case(case):
         base = ["--no-summary", "-f", "rerun", "-o", RERUN]
         if "desel" in kinds:
             base.append("--tags=not x")
+        base.extend(opts)
 
         # ---------------- run 1
         o1 = one_run(m, base + [FDIR], loc2path, faults, loc2cont, cfault)
@@ -438,14 +501,20 @@ def rerun_case(case):
                     v.append(({"subcheck": "run.status", "clause": "ran-after-failed-before-hook", "hook": cfault[1],
                                "status": str(st1.get(p))},
                               "run 1: scenario %r ended %s although %s raised" % (p, st1.get(p), cfault[1])))
+            elif tagsel and "t" not in efftags[p]:
+                if st1.get(p) != "skipped":
+                    v.append(({"subcheck": "run.status", "clause": "untagged-not-skipped-under-tags",
+                               "status": str(st1.get(p))},
+                              "run 1 %s: scenario %r has no @t but ended %s" % (list(opts), p, st1.get(p))))
             elif st1.get(p) not in EXPECT[kind_of[p]]:
                 v.append(({"subcheck": "run.status", "clause": "kind-gives-other-status", "kind": kind_of[p],
                            "status": str(st1.get(p))},
                           "run 1: scenario %r of kind %s ended %s" % (p, kind_of[p], st1.get(p))))
         text1, entries1 = read_listing(v, "run 1")
-        expected1 = check_listing(v, "run 1 kinds=%s stale=%s cfault=%s" % (list(kinds), stale, cfault), st1, order,
+        expected1 = check_listing(v, "run 1 %skinds=%s stale=%s cfault=%s" % (opts and "%s " % list(opts) or "", list(kinds),
+                                                                          stale, cfault), st1, order,
                                   path2loc, loc2path,
-                                  text1, entries1, stale_text, o1["fstatus"])
+                                  text1, entries1, stale_text, o1["fstatus"], tagon)
 
         # ---------------- feed the file back: selection and second run
         o2 = None
@@ -458,7 +527,7 @@ def rerun_case(case):
                 if loc2path[e] not in listed:
                     listed.append(loc2path[e])
             feed_args = ["%s:%d" % e for e in entries1] if feed else ["@" + RERUN]
-            o2 = one_run(m, base + feed_args, loc2path, faults, loc2cont, cfault)
+            o2 = one_run(m, base + feed_args, loc2path, faults, loc2cont, cfault, feedback=True)
             hist = "run 2 on %s (%s) kinds=%s cfault=%s%s" % (" ".join(feed_args), entries1, list(kinds), cfault,
                                                              " special=%s" % (special,) if special else "")
             if o2["feed_exc"]:
@@ -540,14 +609,15 @@ def rerun_case(case):
                             forder.append(e[0])
                     order2 = [p for f in forder for p in order if path2loc[p][0] == f]
                     check_listing(v, hist, {p: st2.get(p, "absent") for p in order}, order2, path2loc, loc2path,
-                                  text2, entries2, None, o2["fstatus"])
+                                  text2, entries2, None, o2["fstatus"], tagon)
         n_unsucc = len(expected1)
         nt = None
         if (0 < n_unsucc < len(order)) or (n_unsucc == 0 and stale):
             nt = digest(case)
         out = (tuple(sorted(set(st1.values()))), min(n_unsucc, 3), text1 is not None, bool(stale), o2 is not None,
                cfault and (cfault[1], "feature" if len(cfault[0]) == 1 else "rule"), int(bool(dup)),
-               special and special + (feed,))
+               special and special + (feed,), opts and ("+".join(o.strip("-").split("=")[0] for o in opts),
+                                                        tuple(sorted(set(tagon.values()), key=str))))
         # special-tag programs: what happens to the untagged unlisted scenarios is judged by the oracle, but a defect there
         # may depend on set iteration order, so those scenarios stay out of the determinism digest
         keep = set(order) if not special else set(p for p in order if p in exempt or st1.get(p) != "passed")
@@ -567,6 +637,12 @@ def rerun_case(case):
         plain = rerun_case((shape0, shape1, kinds, stale, cfault, 0))
         if not plain["v"]:
             res["v"] = [(dict(desc, titles="identical"), "identical titles: " + msg) for desc, msg in res["v"]]
+    if opts and res["v"]:
+        # trigger class: the switch combination, if the same program without the switches is clean
+        plain = rerun_case((shape0, shape1, kinds, stale, cfault, dup, feed, ()))
+        if not plain["v"]:
+            sw = "+".join(o.strip("-").split("=")[0] for o in opts)
+            res["v"] = [(dict(desc, switches=sw), msg) for desc, msg in res["v"]]
     return res
 
 
@@ -632,6 +708,27 @@ def special_cases(tier):
                     yield (shp, shp, tuple(kinds), 1, None, 0, feed)
 
 
+def switch_cases(tier):
+    """TAG_PAIRS x SWITCHES x kinds: <= 1 non-pass slot of every kind but desel, 2 non-pass slots of {fail} (thorough:
+    {fail, error, hooka}); unsuccessful scenarios thus fall among the selected and among the de-selected ones"""
+    kinds1 = [k for k in NONPASS if k != "desel"]
+    kinds2 = ("fail",) if tier == "quick" else ("fail", "error", "hooka")
+    for a, b in TAG_PAIRS:
+        s0, s1 = TAG_SHAPES[a], TAG_SHAPES[b]
+        n = nslots(s0) + nslots(s1)
+        assigns = [("pass",) * n]
+        for i in range(n):
+            for kd in kinds1:
+                assigns.append(tuple(kd if j == i else "pass" for j in range(n)))
+        for i, j in itertools.combinations(range(n), 2):
+            for k1 in kinds2:
+                for k2 in kinds2:
+                    assigns.append(tuple(k1 if x == i else k2 if x == j else "pass" for x in range(n)))
+        for opts in SWITCHES:
+            for kinds in assigns:
+                yield (s0, s1, kinds, 1, None, 0, 0, opts)
+
+
 def run(ctx):
     pairs = QUICK_PAIRS if ctx.quick else THOROUGH_PAIRS
     ctx.bounds = {"feature_files": 2, "shape_pairs": len(pairs), "max_nonpass_scenarios": 2 if ctx.quick else 4,
@@ -645,11 +742,14 @@ def run(ctx):
                   "special_bystander_tags": "@setup/@teardown on a scenario (3 positions), an outline (3 positions), an "
                                             "Examples block (2), a scenario in a rule (3); both files; every untagged "
                                             "slot unsuccessful in turn; fed back as @rerun.txt and as file:line arguments",
+                  "switch_combinations": "3 pairs of @t placements (examples block, outline, scenario, rule, feature, "
+                                         "examples block in a rule) x {no tags, --tags=t} x {show_skipped, --no-skipped}",
                   "executions": "a case with a rerun file counts 2 (run + re-run), otherwise 1"}
     ctx.sweep(rerun_case, cases(ctx.tier), chunk=16, name="run -> rerun.txt -> run")
     ctx.sweep(rerun_case, special_cases(ctx.tier), chunk=8, name="bystanders tagged @setup/@teardown")
+    ctx.sweep(rerun_case, switch_cases(ctx.tier), chunk=16, name="{--tags=t} x {--no-skipped} x @t placements")
     kinds_seen = set()
-    for (statuses, _n, _f, _s, _second, _cf, _dup, _sp) in ctx.outcomes:
+    for (statuses, _n, _f, _s, _second, _cf, _dup, _sp, _sw) in ctx.outcomes:
         kinds_seen |= set(statuses)
     for need in ("passed", "failed", "error", "hook_error", "skipped"):
         ctx.guard(need in kinds_seen, "scenario status %s occurred in run 1" % need)
@@ -664,6 +764,11 @@ def run(ctx):
               "a container with a raising after-hook held unsuccessful scenarios and the file was fed back")
     ctx.guard(any(o[6] and o[4] and o[1] > 0 for o in ctx.outcomes),
               "identical titles: a file naming some namesake scenarios was fed back")
+    sws = set(o[8][0] for o in ctx.outcomes if o[8] and o[4] and o[1] > 0)
+    for need in ("tags", "no-skipped", "tags+no-skipped"):
+        ctx.guard(need in sws, "switch combination %s: unsuccessful scenarios listed and fed back" % need)
+    ctx.guard(any(o[8] and o[8][0] == "tags+no-skipped" and "examples" in o[8][1] and "skipped" in o[0] and o[4]
+                  for o in ctx.outcomes), "--tags=t --no-skipped with rows selected only through an Examples-block tag")
     sps = set(o[7] for o in ctx.outcomes if o[7] and o[4])
     for tag in SPECIAL_TAGS:
         for level in ("scenario", "outline", "examples", "scenario@rule"):
